@@ -57,7 +57,8 @@ type BlockConfig struct {
 	// as a fraction of average line height (default: 1.5)
 	VerticalGapThreshold float64
 
-	// MinBlockWidth is the minimum width for a valid block (default: 10 points)
+	// MinBlockWidth is the minimum width for a valid block (default: 10 points).
+	// Smaller blocks are dropped only when they contain no visible text.
 	MinBlockWidth float64
 
 	// MinBlockHeight is the minimum height for a valid block (default: 5 points)
@@ -391,9 +392,10 @@ func (d *BlockDetector) validateBlocks(blocks []Block) []Block {
 			continue
 		}
 
-		// Skip blocks that are too small
-		if block.BBox.Width < d.config.MinBlockWidth ||
-			block.BBox.Height < d.config.MinBlockHeight {
+		// Skip blocks that are too small, unless they carry visible text
+		// (a single character, a short word on a scaled-down page ...)
+		if (block.BBox.Width < d.config.MinBlockWidth ||
+			block.BBox.Height < d.config.MinBlockHeight) && !blockHasVisibleText(block) {
 			continue
 		}
 
@@ -409,6 +411,17 @@ func (d *BlockDetector) validateBlocks(blocks []Block) []Block {
 }
 
 // Helper functions
+
+// blockHasVisibleText reports whether any fragment of the block contains a
+// non-whitespace character.
+func blockHasVisibleText(block Block) bool {
+	for _, f := range block.Fragments {
+		if !isWhitespaceOnly(f.Text) {
+			return true
+		}
+	}
+	return false
+}
 
 // lineMinY returns the minimum Y of all fragments in a line (bottom)
 func lineMinY(line []text.TextFragment) float64 {
